@@ -276,6 +276,27 @@ def compute_reference(cfg):
     return ref_key(kind, adf, regs, kwname, net_hash(net)), reference(kind, adf, regs, kwname, net)
 
 
+def _explain_impedance_no_restore(before, after, diff):
+    """recorded defect: ImplausibleImpedanceValues sets the flagged lines out of service and adds one closed bus-bus
+    switch per flagged line; if the power flow on that modified net raises anything but a convergence error the
+    restoring block is skipped.  True iff the tables differ exactly in that way."""
+    if not set(diff) <= {"line", "switch", "res_switch", "res_line"} or "line" not in diff or "switch" not in diff:
+        return False
+    lb, la = before.line, after.line
+    if list(lb.index) != list(la.index) or not lb.drop(columns="in_service").equals(la.drop(columns="in_service")):
+        return False
+    flagged = [i for i in lb.index if bool(lb.at[i, "in_service"]) and not bool(la.at[i, "in_service"])]
+    if not flagged or any(bool(la.at[i, "in_service"]) and not bool(lb.at[i, "in_service"]) for i in lb.index):
+        return False
+    sb, sa = before.switch, after.switch
+    if len(sa) != len(sb) + len(flagged) or not sa.iloc[:len(sb)].equals(sb):
+        return False
+    new = sa.iloc[len(sb):]
+    want = [(int(lb.at[i, "from_bus"]), int(lb.at[i, "to_bus"])) for i in flagged]
+    got = [(int(r.bus), int(r.element)) for r in new.itertuples()]
+    return got == want and all(new.et == "b") and all(new.closed)
+
+
 # ----------------------------------------------------------------------------------------------
 # the model (mc.explore interface)
 # ----------------------------------------------------------------------------------------------
@@ -323,6 +344,9 @@ class Model:
             s.last["net_before"] = net_tables(net)
             s.last["net_copy"] = copy.deepcopy(net)
             kw = dict(KW[kwname])
+            pristine_names = {n for (n, _, _) in pristine_canon()["df_funcs"]}
+            used = s.insts[op[1]]._functions if kind == "diag" else s.mod["dd_funcs"]
+            s.last["ran_custom"] = sorted({str(n) for (n, _, _) in used} - pristine_names)
             if kind == "diag":
                 d = s.insts[op[1]]
                 res = _record(d, _call(lambda: d.diagnose_network(net, report_style=REPORT.get(kwname), **kw)))
@@ -390,11 +414,14 @@ class Model:
             diff = net_diff(last["net_before"], last["net_after"])
             if diff:
                 res_only = all(k.startswith("res_") or k in ("converged", "OPF_converged") for k in diff)
-                fn = ["fn=" + f for f in (last["ref_args"][2] or [])]
-                vs.append(core.violation("net_unchanged", {"tables": diff, "only_result_tables": res_only},
-                                         tokens=base_toks + ["tab=" + k for k in diff] + fn +
-                                         (["only_result_tables"] if res_only else ["input_tables"]),
-                                         klass="/".join(diff)[:60]))
+                ran = ["ran=" + f for f in last["ran_custom"]]
+                toks = base_toks + ["tab=" + k for k in diff] + ran + (["only_result_tables"] if res_only else ["input_tables"])
+                j = op[2] if op[0] == "diag" else op[1]
+                if not res_only and _explain_impedance_no_restore(last["net_copy"], s.nets[j], diff):
+                    toks.append("explained=implausible_impedance_no_restore")
+                vs.append(core.violation("net_unchanged", {"tables": diff, "only_result_tables": res_only,
+                                                           "custom_functions_run": last["ran_custom"]},
+                                         tokens=toks, klass="/".join(diff)[:60]))
             kind, adf, regs, kwname = last["ref_args"]
             ref = reference(kind, adf, regs, kwname, last["net_copy"])
             got = last["result"]
@@ -450,6 +477,9 @@ class Model:
             return "sticky_instance_kwargs" if res == last["result"] else None
         m = copy.deepcopy(_PRISTINE)
         m["args"].update({k: v for k, v in leaked_kw.items()})
+        for f in leaked_regs:
+            fobj, argnames, name = _make_function(f)
+            m["funcs"].append((name if name is not None else type(fobj).__name__, fobj, argnames))
         install({"df_args": m["args"], "dd_args": m["args"], "df_funcs": m["funcs"], "dd_funcs": m["funcs"]})
         n = copy.deepcopy(last["net_copy"])
         kw = dict(KW[kwname])
@@ -457,7 +487,5 @@ class Model:
             res = _call(lambda: legacy_diagnostic(n, report_style=None, **kw))
         else:
             d = Diagnostic(add_default_functions=True)
-            for f in leaked_regs:
-                d.register_function(*_make_function(f))
             res = _record(d, _call(lambda: d.diagnose_network(n, report_style=REPORT.get(kwname), **kw)))
         return "shared_module_defaults" if res == last["result"] else None
